@@ -824,3 +824,98 @@ package shwap
 //@   loop 2: invariant len(extendedRowShares) == numRows && 0 <= row && row < numRows
 //@   loop 2: invariant forall j int :: 0 <= j && j <= row ==> len(extendedRowShares[j]) == rowLen(j, numRows, from.Col, to.Col, odsSize)
 //@   loop 2: invariant forall j int :: row < j && j < numRows ==> len(extendedRowShares[j]) == ((j == 0 && startProof) ? rowLen(0, numRows, from.Col, to.Col, odsSize) : ((j == numRows-1 && endProof) ? to.Col + 1 : 2*odsSize))
+
+// ---------------------------------------------------------------------------------------------
+// C05 / C09: building a sample from one full axis. idx is in the axis's own frame: idx.Row is the index
+// of the axis (it keys the tree), idx.Col the position of the share on it. The tree is built over all the
+// shares in order, the proof is for exactly [idx.Col, idx.Col+1), the share is the one at idx.Col.
+//@ func SampleFromShares
+//@   property C05 C09
+//@   requires 0 <= idx.Col && idx.Col < len(shares)
+//@   callpre wrapper.NewErasuredNamespacedMerkleTree: $arg0 == uint64(len(shares) / 2) && $arg1 == uint(idx.Row)
+//@   callpre ErasuredNamespacedMerkleTree).Push: 0 <= rangeindex && rangeindex < len(shares) && $arg1 == shares[rangeindex].data
+//@   callpre ErasuredNamespacedMerkleTree).ProveRange: $arg1 == idx.Col && $arg2 == idx.Col + 1
+//@   ensures err == nil ==> result0.Share == shares[idx.Col] && result0.ProofType == proofType && result0.Proof != nil
+//@   loop 1: invariant -1 <= rangeindex && rangeindex < len(shares)
+//@   loop 1: backedge rangeindex == head(rangeindex) + 1
+
+// An axis half becomes a row half of the side it is: the original half is the left side, a parity half the
+// right side, with the same shares.
+//@ func (AxisHalf).ToRow
+//@   property C10 C05
+//@   ensures result.shares == a.Shares && result.side == (a.IsParity ? Right : Left)
+//@ func NewRow
+//@   property C10 C05
+//@   ensures result.shares == shares && result.side == side
+
+// ---------------------------------------------------------------------------------------------
+// C09 / C18: reading an identifier from a stream. A request is accepted only if exactly the identifier's
+// fixed number of bytes could be read and this identifier type's own decoder accepts them; a shorter
+// (truncated) request is refused and leaves the receiver as it was; the value stored is the decoded one.
+// (A-IO: io.ReadFull returns nil exactly when it filled the buffer.)
+//@ extern io.ReadFull
+//@   modifies buf
+//@   ensures 0 <= n && n <= len(buf) && (err == nil <==> n == len(buf))
+//@ func (*EdsID).ReadFrom
+//@   property C09 C18
+//@   requires eid != nil
+//@   modifies eid
+//@   only FromBinary: EdsIDFromBinary
+//@   callpre EdsIDFromBinary: $arg0 == data && len(data) == EdsIDSize
+//@   ensures err == nil ==> result0 == EdsIDSize
+//@   ensures err != nil ==> deref(eid) == old(deref(eid))
+//@   checks err == nil ==> deref(eid) == id
+//@ func (*RowID).ReadFrom
+//@   property C09 C18
+//@   requires rid != nil
+//@   modifies rid
+//@   only FromBinary: RowIDFromBinary
+//@   callpre RowIDFromBinary: $arg0 == data && len(data) == RowIDSize
+//@   ensures err == nil ==> result0 == RowIDSize
+//@   ensures err != nil ==> deref(rid) == old(deref(rid))
+//@   checks err == nil ==> deref(rid) == id
+//@ func (*SampleID).ReadFrom
+//@   property C09 C18
+//@   requires sid != nil
+//@   modifies sid
+//@   only FromBinary: SampleIDFromBinary
+//@   callpre SampleIDFromBinary: $arg0 == data && len(data) == SampleIDSize
+//@   ensures err == nil ==> result0 == SampleIDSize
+//@   ensures err != nil ==> deref(sid) == old(deref(sid))
+//@   checks err == nil ==> deref(sid) == id
+//@ func (*NamespaceDataID).ReadFrom
+//@   property C09 C18
+//@   requires ndid != nil
+//@   modifies ndid
+//@   only FromBinary: NamespaceDataIDFromBinary
+//@   callpre NamespaceDataIDFromBinary: $arg0 == data && len(data) == NamespaceDataIDSize
+//@   ensures err == nil ==> result0 == NamespaceDataIDSize
+//@   ensures err != nil ==> deref(ndid) == old(deref(ndid))
+//@   checks err == nil ==> deref(ndid) == id
+//@ func (*RowNamespaceDataID).ReadFrom
+//@   property C09 C18
+//@   requires rndid != nil
+//@   modifies rndid
+//@   only FromBinary: RowNamespaceDataIDFromBinary
+//@   callpre RowNamespaceDataIDFromBinary: $arg0 == data && len(data) == RowNamespaceDataIDSize
+//@   ensures err == nil ==> result0 == RowNamespaceDataIDSize
+//@   ensures err != nil ==> deref(rndid) == old(deref(rndid))
+//@   checks err == nil ==> deref(rndid) == id
+//@ func (*RangeNamespaceDataID).ReadFrom
+//@   property C09 C18
+//@   requires rngid != nil
+//@   modifies rngid
+//@   only FromBinary: RangeNamespaceDataIDFromBinary
+//@   callpre RangeNamespaceDataIDFromBinary: $arg0 == data && len(data) == RangeNamespaceDataIDSize
+//@   ensures err == nil ==> result0 == RangeNamespaceDataIDSize
+//@   ensures err != nil ==> deref(rngid) == old(deref(rngid))
+//@   checks err == nil ==> deref(rngid) == id
+//@ func (*RangeNamespaceDataIDV0).ReadFrom
+//@   property C09 C18
+//@   requires rngid != nil
+//@   modifies rngid
+//@   only FromBinary: RangeNamespaceDataIDV0FromBinary
+//@   callpre RangeNamespaceDataIDV0FromBinary: $arg0 == data && len(data) == RangeNamespaceDataIDV0Size
+//@   ensures err == nil ==> result0 == RangeNamespaceDataIDV0Size
+//@   ensures err != nil ==> deref(rngid) == old(deref(rngid))
+//@   checks err == nil ==> deref(rngid) == id
